@@ -329,8 +329,8 @@ type c8Run struct {
 	bad        string // set when the implementation hung / panicked
 	features   map[string]bool
 	// block-wise histories
-	errs    int             // calls of the connection's / block-wise layer's error callback
-	fresh   [][]byte        // tokens drawn by the block-wise layer, in the order they showed on the wire
+	errs    int              // calls of the connection's / block-wise layer's error callback
+	fresh   [][]byte         // tokens drawn by the block-wise layer, in the order they showed on the wire
 	lastGet map[string]int32 // token -> message ID of the last confirmable GET written under it
 }
 
